@@ -109,7 +109,8 @@ def model_request(case, perm=0):
         pairs.append(("path", b_(mp)))
         if content == "DIR": pairs.append(("dir", True))
         elif isinstance(content, dict):
-            pairs.append(("cfg", True)); cfgd = content["cfg"]
+            # a configuration file: the model is given the very bytes the implementation reads and parses them itself (Model/Config.v)
+            pairs.append(("data", cfg_file_text(content["cfg"])))
         else: pairs.append(("data", content))
     if cfgd is not None:
         for k in ("db", "log", "fmt", "depth"):
@@ -208,6 +209,8 @@ def classify_error(msg):
     if m == "bufio.Scanner: token too long": return "toolong"
     if m in ("no element name", "no file provided"): return "usage:" + m.encode().hex()
     if m.startswith("File ") and m.endswith("not found"): return "cfgmissing"
+    # gcfg (the configuration file reader): syntax errors carry a position "line:col:", data errors name the section / variable, and several are collected as "warnings:"
+    if re.match(r"^(\d+:\d+: |warnings?:|invalid (section|variable)|can't store data|failed to parse |gcfg: )", m) or "at section" in m or m.startswith("illegal "): return "cfgsyntax"
     if m.startswith("error parsing regexp"): return "regexp"
     if "no space left" in m or "short write" in m or "broken pipe" in m or m.startswith("write "): return "write"
     return "other:" + m
